@@ -491,15 +491,18 @@ func TestC12Restart(t *testing.T) {
 			ns = stanza.NSServer
 			state |= xmpp.S2S
 		}
-		us := genJID(rt, "us", -1) // our address (bare: resource handled by bind)
-		them := genJID(rt, "them", -1)
+		// the initiating side's own address may carry a resourcepart (the one it
+		// will ask for in resource binding)
+		us := genJID(rt, "us", 0)
+		them := genJID(rt, "them", 0)
 		if !recv {
 			them = them.Domain()
 		} else {
 			us = us.Domain()
 		}
-		// second header: which address changes
-		change := rapid.SampledFrom([]string{"none", "none", "from", "to", "dropfrom", "dropto", "both"}).Draw(rt, "change")
+		// second header: which address changes ("resource": the initiating
+		// entity's address differs in nothing but the resourcepart)
+		change := rapid.SampledFrom([]string{"none", "none", "from", "to", "dropfrom", "dropto", "both", "resource"}).Draw(rt, "change")
 		other := jid.MustParse("mallory@evil.example")
 		if (recv && change == "to") || (!recv && change == "from") || change == "both" {
 			other = other.Domain()
@@ -550,6 +553,22 @@ func TestC12Restart(t *testing.T) {
 			from2 = ""
 		case "dropto":
 			to2 = ""
+		case "resource":
+			initiator := us
+			if recv {
+				initiator = them
+			}
+			var alt jid.JID
+			if initiator.Resourcepart() != "" && rapid.Bool().Draw(rt, "dropres") {
+				alt = initiator.Bare()
+			} else {
+				alt, _ = initiator.WithResource(initiator.Resourcepart() + "2")
+			}
+			if recv {
+				from2 = alt.String()
+			} else {
+				to2 = alt.String()
+			}
 		}
 		peer := wire.NewReactive(func(r *wire.Reactive, fresh []byte) []byte {
 			if !recv {
@@ -591,7 +610,7 @@ func TestC12Restart(t *testing.T) {
 		}); p != "" {
 			fail("%s", p)
 		}
-		changed := change == "from" || change == "to" || change == "both"
+		changed := change == "from" || change == "to" || change == "both" || change == "resource"
 		if ran != 1 {
 			fail("the restarting feature ran %d times (harness expectation 1); err=%v output=%q", ran, err, peer.Conn.Output())
 		}
